@@ -7,6 +7,7 @@ import TantivyModel.Props.C20
 #print axioms TantivyModel.C20.crc32_single_byte
 #print axioms TantivyModel.C20.C20_single_byte_detected
 #print axioms TantivyModel.C20.C20_bit_flip_detected
+#print axioms TantivyModel.C20.C20_burst32_detected
 #print axioms TantivyModel.C20.C20_truncation_small
 #print axioms TantivyModel.C20.proxy_fold
 #print axioms TantivyModel.C20.C20_proxy_hash_all
